@@ -243,6 +243,8 @@ type c16Ctl struct {
 	cerr    error
 	csp     bool
 	dret    bool
+	aux     bool // a further call made on a goroutine of its own returned
+	auxErr  error
 	derr    error
 	unexp   []string
 	stuck   string
@@ -290,6 +292,8 @@ func (c *c16Ctl) wait(what string, hold []string, cond func() bool) bool {
 				c.cret, c.cerr, c.csp = true, ev.err, ev.sp
 			case "dret":
 				c.dret, c.derr = true, ev.err
+			case "aux":
+				c.aux, c.auxErr = true, ev.err
 			}
 		case <-deadline:
 			atomic.AddInt32(&c16Expired, 1)
@@ -436,12 +440,13 @@ const (
 	mRelDWfail
 	mRelDC
 	mCtxCancel
+	mDisconnectAgain
 	mCount
 )
 
 var c16MacroName = []string{"StartConnect", "RelConnectWrite(ok)", "RelConnectWrite(fail)", "PeerConnAck(accept)", "PeerConnAck(refuse)",
 	"PeerEnd", "LocalClose", "RelServeClose", "RelClosedCallback", "RelActiveCallback", "StartDisconnect",
-	"RelDisconnectedCallback", "RelDisconnectWrite(ok)", "RelDisconnectWrite(fail)", "RelDisconnectClose", "CancelConnectCtx"}
+	"RelDisconnectedCallback", "RelDisconnectWrite(ok)", "RelDisconnectWrite(fail)", "RelDisconnectClose", "CancelConnectCtx", "DisconnectAgain"}
 
 type c16Scn struct {
 	tl   *c16Timeline
@@ -454,6 +459,7 @@ type c16Scn struct {
 	ackCode       int
 	ctxDone       bool
 	nLocalClose   int
+	nDisc2        int
 	cancel        context.CancelFunc
 	ctx           context.Context
 	endKind       int  // which malformed/closing/ack-write-failure behaviour PeerEnd uses
@@ -505,7 +511,7 @@ func (s *c16Scn) valid(m int) bool {
 	case mPeerAccept, mPeerRefuse, mPeerEnd:
 		return s.sSt == "rd"
 	case mLocalClose:
-		return s.nLocalClose < 1
+		return s.nLocalClose < 2
 	case mRelSC:
 		return s.sSt == "SC"
 	case mRelSU:
@@ -522,6 +528,12 @@ func (s *c16Scn) valid(m int) bool {
 		return s.dSt == "DC"
 	case mCtxCancel:
 		return !s.ctxDone && (s.cSt == "CW" || s.cSt == "sel")
+	case mDisconnectAgain:
+		// a further, complete call of Disconnect from another goroutine: after the first one has
+		// updated the state (it may still be parked in its callback or before its Close, or have
+		// returned). Not while the harness itself holds muWrite (a goroutine parked in Write) or
+		// Connect holds muConnecting.
+		return s.nDisc2 < 2 && s.dSt != "" && s.dSt != "DW" && (s.cSt == "" || s.cSt == "ret")
 	}
 	return false
 }
@@ -831,6 +843,32 @@ func (s *c16Scn) do(m int) bool {
 		s.ctxDone = true
 		s.cancel()
 		return s.settleC()
+	case mDisconnectAgain:
+		s.nDisc2++
+		s.tl.tev(0, "TCallDisconnect")
+		willClose := !s.conn.isClosed()
+		if willClose {
+			s.tl.tev(0, "TDiscClose")
+		}
+		started := make(chan struct{})
+		c.aux = false
+		go func() {
+			atomic.StoreInt64(&c.gidAux, c16gid()) // its Write/Close are not parking spots
+			close(started)
+			err := s.cli.Disconnect(context.Background())
+			c.events <- c16Ev{kind: "aux", err: err}
+		}()
+		<-started
+		if !c.wait("a further Disconnect returns", nil, func() bool { return c.aux }) {
+			return false
+		}
+		s.tl.step(0, "LXDiscUpdate")
+		if willClose && c.auxErr == nil {
+			s.tl.step(0, "LLocalClose") // the Transport.Close of that call
+			if s.sSt == "rd" {
+				return s.serveFails("ELocalClosed")
+			}
+		}
 	}
 	return true
 }
@@ -1129,6 +1167,7 @@ type c16RCResult struct {
 }
 
 const c16Ping = 5 * time.Millisecond
+const c16OptPing = 25 * time.Millisecond // kind "opts": its default Timeout is the same 25 ms
 
 // c16RunRC runs one scenario of the reconnecting client. kind:
 //
@@ -1137,6 +1176,7 @@ const c16Ping = 5 * time.Millisecond
 //	"refused"              connection 0: CONNACK refused (code); connection 1 healthy; Disconnect
 //	"ack_write_fail"       connection 0 healthy; inbound QoS 2, the PUBCOMP write fails (reads still work); connection 1 healthy
 //	"graceful_late"        healthy, Disconnect, sampled >= 60 ms (12 ping intervals) later
+//	"opts"                 option-presence sweep (code = bits {CONNECT keep-alive, WithPingInterval, WithTimeout}) on a healthy peer, then Disconnect
 //	"ka_graceful_inflight" PINGREQ in flight (never answered, long timeout) when Disconnect is called
 func c16RunRC(kind string, code int) (res c16RCResult) {
 	tl := &c16Timeline{}
@@ -1158,8 +1198,26 @@ func c16RunRC(kind string, code int) (res c16RCResult) {
 	default:
 		r.plan = func(k int) (bool, int) { return true, 0 }
 	}
-	rc, err := mqtt.NewReconnectClient(mqtt.DialerFunc(r.dial),
-		mqtt.WithPingInterval(c16Ping), mqtt.WithTimeout(timeout), mqtt.WithReconnectWait(time.Millisecond, time.Millisecond))
+	ropts := []mqtt.ReconnectOption{mqtt.WithPingInterval(c16Ping), mqtt.WithTimeout(timeout), mqtt.WithReconnectWait(time.Millisecond, time.Millisecond)}
+	var copts []mqtt.ConnectOption
+	optPing := time.Duration(0) // kind "opts": the ping interval in effect (0: no keep-alive goroutine)
+	if kind == "opts" {
+		// presence sweep of {CONNECT keep-alive (1 s), WithPingInterval (25 ms), WithTimeout (2 s)} = bits 1, 2, 4 of code;
+		// whatever is absent takes the library's default (reconnclient.go:70-75)
+		ropts = []mqtt.ReconnectOption{mqtt.WithReconnectWait(time.Millisecond, time.Millisecond)}
+		if code&1 != 0 {
+			copts = append(copts, mqtt.WithKeepAlive(1))
+			optPing = time.Second
+		}
+		if code&2 != 0 {
+			ropts = append(ropts, mqtt.WithPingInterval(c16OptPing))
+			optPing = c16OptPing
+		}
+		if code&4 != 0 {
+			ropts = append(ropts, mqtt.WithTimeout(2*time.Second))
+		}
+	}
+	rc, err := mqtt.NewReconnectClient(mqtt.DialerFunc(r.dial), ropts...)
 	if err != nil {
 		res.stuck = err.Error()
 		return
@@ -1176,7 +1234,7 @@ func c16RunRC(kind string, code int) (res c16RCResult) {
 	}
 	connRes := make(chan error, 1)
 	go func() {
-		_, err := rc.Connect(ctx, "cid")
+		_, err := rc.Connect(ctx, "cid", copts...)
 		connRes <- err
 	}()
 	ep0, err := r.nextEpoch("first dial")
@@ -1301,12 +1359,28 @@ func c16RunRC(kind string, code int) (res c16RCResult) {
 			return fail(err)
 		}
 		c16ConnectLabels(tl, 0, 0)
-		tl.step(0, "LKAStart")
-		if kind == "ka_graceful_inflight" {
+		if kind != "opts" || optPing > 0 {
+			tl.step(0, "LKAStart")
+		}
+		switch {
+		case kind == "ka_graceful_inflight":
 			if err := c16WaitCh(ep0.ping, "first PINGREQ"); err != nil {
 				return fail(err)
 			}
-		} else {
+		case kind == "opts":
+			// a healthy peer that answers every PINGREQ at once, watched for several ping
+			// intervals: nothing may be reported, Err() nil, Done() open, one dial
+			n, every := 4, c16OptPing
+			if optPing == time.Second && cfgThorough {
+				n, every = 9, 250*time.Millisecond // 2.25 s: two pings of the 1 s default
+			}
+			for i := 0; i < n; i++ {
+				time.Sleep(every)
+				if !c16Sample(tl, 0, ep0.cli) {
+					return fail(errors.New("stuck: Err()/Done() did not return"))
+				}
+			}
+		default:
 			time.Sleep(3 * c16Ping)
 		}
 		if !c16Sample(tl, 0, ep0.cli) {
@@ -1374,7 +1448,10 @@ func c16RunRC(kind string, code int) (res c16RCResult) {
 
 // ---------------------------------------------------------------- driver
 
+var cfgThorough bool
+
 func runC16(cfg *runCfg) error {
+	cfgThorough = cfg.tier == "thorough"
 	rnd := rand.New(rand.NewSource(cfg.seed))
 	cf := newCasesFile("C16", "ConnState", "CheckC16")
 	m := &meta{Property: "C16", Distribution: map[string]interface{}{}, Families: map[string][]interface{}{}}
@@ -1569,6 +1646,13 @@ func runC16(cfg *runCfg) error {
 		}
 	}
 	for rep := 0; rep < rcReps; rep++ {
+		if rep == 0 {
+			for mask := 0; mask < 8; mask++ {
+				addRC("opts", mask)
+			}
+		} else {
+			addRC("opts", 2) // WithPingInterval alone: Timeout must default to the ping interval
+		}
 		addRC("ka_timeout", 0)
 		addRC("ack_write_fail", 0)
 		addRC("stale_ka", 0)
@@ -1639,7 +1723,7 @@ func c16LoadCorpus() (bc [][]int, rc []c16CorpusRC) {
 	}
 	files, _ := filepath.Glob(filepath.Join(root, "corpus", "C16", "*.json"))
 	sort.Strings(files)
-	kinds := map[string]bool{"ack_write_fail": true, "ka_timeout": true, "stale_ka": true, "refused": true, "graceful_late": true, "ka_graceful_inflight": true}
+	kinds := map[string]bool{"opts": true, "ack_write_fail": true, "ka_timeout": true, "stale_ka": true, "refused": true, "graceful_late": true, "ka_graceful_inflight": true}
 	for _, f := range files {
 		b, err := os.ReadFile(f)
 		if err != nil {
@@ -1666,6 +1750,9 @@ func c16LoadCorpus() (bc [][]int, rc []c16CorpusRC) {
 			if kinds[e.Kind] {
 				if e.Repeat <= 0 {
 					e.Repeat = 1
+				}
+				if e.Kind == "opts" {
+					e.Code &= 7
 				}
 				if e.Kind == "refused" && (e.Code < 1 || e.Code > 5) {
 					e.Code = 5
